@@ -405,6 +405,14 @@ def _directed():
                          (slice(None), slice(5, None, 3)), (np.array([0, 0], dtype=np.int64), slice(None, 255, -1))):
             yield mk_case(ll, rs_, cs_, True)
             yield mk_case(ll, rs_, cs_, True, "lazyrows")
+    # few cells, but (number of rows) x (longest row) beyond 2**31: bounds estimated that way go wrong under the 32-bit index width only
+    tall = [1] * 49999 + [50000]
+    yield mk_case(tall, slice(None, None, 2))
+    yield mk_case(tall, np.array([49999, 0, 49999, 7], dtype=np.int64), slice(1, None), True)
+    yield mk_case(tall, slice(49990, None), slice(None, None, -1), True, "lazyrows")
+    wide = [70000, 1, 1]
+    yield mk_case(wide, np.array([1, 2] * 20000 + [0], dtype=np.int64))
+    yield mk_case(wide, [1, 2] * 20000 + [0, 0], slice(0, 1), True)
     hl = [(i * 7) % 3 for i in range(130001)]       # more than 100000 rows
     yield mk_case(hl, np.array([i % 5 != 2 for i in range(130001)]))
     yield mk_case(hl, slice(None, None, 1), slice(None, None, -1), True)
